@@ -39,10 +39,10 @@ CHECKS.update({
     "C17": bounded("Relational check over token-preserving re-layouts (one token per line as reference, CRLF, random white space, code-like comments, multi-byte comments, string contents neutralised): the same tokens start flagged constructs, for 30 detectors. Deductive half: every spec predicate pat_P of the Verus units is Loc-blind.", "the lexer/parser (an unverified dependency)", "§9 C17"),
     "C15": bounded("Each (file, pattern) evaluated alone, repeated, with different file numbers, after the 29 other patterns in seeded permuted orders, from 8 concurrently running threads and in a fresh process; results compared. Thread interleavings are sampled by the OS scheduler, not explored. Deductive half: every function with a proved functional postcondition (Verus units) is a function of its arguments only; frame scan for statics/thread_locals/interior mutability.", "threads (neither Verus without its permission types nor Kani) or process state", "§9 C15"),
     "C05": dict(level="other",
-        text="Mixed, itemised in the evidence: 10 of the 11 detectors (address_balance, address_zero, bool_equals_bool, assign_update_array_value, cache_array_length, multiple_require, optimal_comparison, shift_math, solidity_keccak256, solidity_math) are PROVED with Verus to report exactly hits(pat_P, loc_P) over the complete node enumeration of C01, with lemmas canon_P => pat_P => match_P tying pat_P to DESIGN §8; increment_decrement and the decimal-string arithmetic inside shift_math's helper are decided only by the bounded native check (every payload class in every syntactic position), which also serves as counterexample engine for the proved ones.",
-        design="§4.2, §8 C05, §9 C05-C07",
-        note="Trusted: Verus/Z3, vstd, walker contract (proved, C01), assumed std string contracts, R5 desugaring of `for`+`continue` (multiple_require). Bounded part is bounded.",
-        technique="contract-based deductive verification (Verus) of the real detector functions against hits/pat/loc specs; bounded executable-contract check for the functions outside Verus' reach"),
+        text="All 11 detectors are PROVED with Verus to report exactly hits(pat_P, loc_P) over the complete node enumeration of C01 (address_balance, address_zero, bool_equals_bool, assign_update_array_value, cache_array_length, increment_decrement [= all ++/-- locations minus the prefix forms nested in statements of unchecked blocks; trusted model of by-value HashSet iteration], multiple_require, optimal_comparison, shift_math, solidity_keccak256, solidity_math), with lemmas canon_P => pat_P => match_P tying pat_P to DESIGN §8 where they differ. ONE piece is bounded only: the body of shift_math's helper number_literal_is_power_of_two (decimal-string arithmetic on bytes, iterator adapters: outside Verus); its callers are proved against an uninterpreted spec_pow2_literal and the helper is checked by the native corpus on every 2^k, 2^k+-1 (k <= 300), separators, leading zeros and exponent forms. The native corpus is also the counterexample engine for the proved functions.",
+        design="§4.2, §8 C05, §9",
+        note="Trusted: Verus/Z3, vstd, walker contract (proved, C01), assumed std string contracts, tuple equality componentwise, HashSet::extend is union, trusted HashSet iteration model, R5 desugaring of for+continue (multiple_require). The helper part is bounded.",
+        technique="contract-based deductive verification (Verus) of the real detector functions against hits/pat/loc specs; bounded executable-contract check for the one helper body outside Verus' reach"),
     "C07": dict(level="proof",
         text="All four vulnerability detectors are PROVED with Verus against DESIGN §8: unsafe_erc20_operation, floating_pragma, divide_before_multiply (both left-spine loops, with termination) and unprotected_selfdestruct together with its five helpers (_is_public_or_external, _is_selfdestruct, _contains_protection_modifiers, _contains_msg_sender_conditions, _is_msg_sender): the result is the union over contracts and member functions of the selfdestruct/suicide calls of every exposed (body, not constructor, public/external) function that has no `only` modifier and passes no msg.sender check to a non-conversion call. The contract_part().unwrap() site is discharged by the generated, proved structural lemma. The bounded native check (58 guard forms x containers x nestings) is the counterexample engine and is not counted.",
         design="§8 C07, §9 C05-C07",
